@@ -143,25 +143,63 @@ def increasing(tbl):
     return all(a[0] < b[0] for a, b in zip(tbl, tbl[1:]))
 
 
-def py_interp(tbl, w):
-    """linear interpolation between the two neighbouring rows (increasing table), end values outside"""
-    if w <= tbl[0][0]:
-        return tbl[0][1]
-    if w >= tbl[-1][0]:
-        return tbl[-1][1]
-    lo, hi = 0, len(tbl) - 1
-    while hi - lo > 1:
-        mid = (lo + hi) // 2
-        if tbl[mid][0] <= w:
-            lo = mid
-        else:
-            hi = mid
-    (x0, f0), (x1, f1) = tbl[lo], tbl[hi]
-    return f0 + (f1 - f0) / (x1 - x0) * (w - x0)
+def nondecreasing(xs):
+    return all(a <= b for a, b in zip(xs, xs[1:]))
+
+
+def table_oracle(tbl, w):
+    """Linear interpolation of a table exactly as the data file lists it: the straight line through two CONSECUTIVE
+    FILE ROWS that bracket w (no sorting, no de-duplication, no np.interp).
+    ('ok', [values]) - every value a correct implementation may return (one value unless the wavelength column is
+    not monotone, where several consecutive pairs can bracket w);  ('skip',) - nothing is promised here: w is a
+    wavelength the file lists twice (a step), or lies outside a non-monotone table."""
+    import bisect
+    xs = [r[0] for r in tbl]
+    mono = nondecreasing(xs)
+    if mono:
+        lo = bisect.bisect_left(xs, w)
+        hi = bisect.bisect_right(xs, w)
+        if hi - lo == 1:
+            return ('ok', [tbl[lo][1]])             # a wavelength listed once: the tabulated value
+        if hi - lo > 1:
+            return ('skip',)                        # listed twice or more: a step, either value is defensible
+        if lo == 0:
+            return ('ok', [tbl[0][1]])              # below the table: first row
+        if lo == len(xs):
+            return ('ok', [tbl[-1][1]])             # above: last row
+        (x0, f0), (x1, f1) = tbl[lo - 1], tbl[lo]   # consecutive rows with x0 < w < x1
+        return ('ok', [f0 + (f1 - f0) / (x1 - x0) * (w - x0)])
+    # rows out of order (15 catalogue files: swapped rows, typos).  Two readings of "the tabulated data" are
+    # defensible - the file rows as listed, or the same rows put in increasing order (stable, nothing dropped);
+    # a correct implementation returns the line through two consecutive rows of either
+    if any(x == w for x in xs):
+        return ('skip',)
+    vals = []
+    for t in (tbl, sorted(tbl, key=lambda r: r[0])):
+        for (x0, f0), (x1, f1) in zip(t, t[1:]):
+            if x0 < w < x1 or x1 < w < x0:
+                vals.append(f0 + (f1 - f0) / (x1 - x0) * (w - x0))
+    if w < min(xs):
+        vals.append(sorted(tbl, key=lambda r: r[0])[0][1])
+    if w > max(xs):
+        vals.append(sorted(tbl, key=lambda r: r[0])[-1][1])
+    return ('ok', vals) if vals else ('skip',)
+
+
+def disordered_at(xs, w):
+    """True when the rows with wavelength <= w do not all precede the rows with wavelength > w: there the result of a
+    binary search on the unsorted column depends on the path taken (np.interp documents the result as undefined)"""
+    seen_greater = False
+    for x in xs:
+        if x > w:
+            seen_greater = True
+        elif seen_greater:
+            return True
+    return False
 
 
 def oracle_n(secs, w):
-    """('ok', value) | ('none',) no dispersion section | ('multi',) | ('unsorted',) | ('bad', why)"""
+    """('ok', [values]) | ('none',) no dispersion section | ('multi',) | ('skip',) | ('bad', why)"""
     ns = [s for s in secs if s[0] in ('formula', 'n', 'nk')]
     if not ns:
         return ('none',)
@@ -172,11 +210,8 @@ def oracle_n(secs, w):
         if s[0] == 'formula':
             with warnings.catch_warnings():
                 warnings.simplefilter('ignore')
-                return ('ok', py_formula(s[1], s[2], w))
-        tbl = [(r[0], r[1]) for r in s[1]]
-        if not increasing(tbl):
-            return ('unsorted',)
-        return ('ok', py_interp(tbl, w))
+                return ('ok', [py_formula(s[1], s[2], w)])
+        return table_oracle([(r[0], r[1]) for r in s[1]], w)
     except (ValueError, ZeroDivisionError, OverflowError, KeyError, IndexError) as e:
         return ('bad', type(e).__name__)
 
@@ -185,11 +220,36 @@ def oracle_k(secs, w):
     ks = [s for s in secs if s[0] in ('k', 'nk')]
     if len(ks) != 1:
         return ('none',)
-    s = ks[0]
-    tbl = [(r[0], r[-1]) for r in s[1]]
-    if not increasing(tbl):
-        return ('unsorted',)
-    return ('ok', py_interp(tbl, w))
+    return table_oracle([(r[0], r[-1]) for r in ks[0][1]], w)
+
+
+def table_samples(secs, lo, hi, budget):
+    """wavelengths strictly inside the intervals between consecutive file rows of every table of the file, within the
+    catalogue range [lo, hi]: 1/4, 1/2, 3/4 of every interval within two rows of a repeated or out-of-order
+    wavelength (all of them, first), then midpoints of up to `budget` other intervals spread over the table"""
+    prio, rest = [], []
+    for s in secs:
+        if s[0] not in ('n', 'k', 'nk'):
+            continue
+        xs = [r[0] for r in s[1]]
+        odd = {j for j in range(len(xs) - 1) if xs[j] >= xs[j + 1]}
+        near = set()
+        for j in odd:
+            near.update(range(max(0, j - 2), min(len(xs) - 1, j + 3)))
+        others = [j for j in range(len(xs) - 1) if j not in near and xs[j] != xs[j + 1]]
+        for j in sorted(near):
+            if xs[j] != xs[j + 1]:
+                prio += [xs[j] + (xs[j + 1] - xs[j]) * t for t in (0.25, 0.5, 0.75)]
+        if len(others) > budget:
+            step = len(others) / float(budget)
+            others = [others[int(k * step)] for k in range(budget)]
+        rest += [0.5 * (xs[j] + xs[j + 1]) for j in others]
+    keep = lambda l: [w for w in l if lo <= w <= hi]
+    return keep(prio), keep(rest)
+
+
+def _agree_any(v, vals, tol=1e-9):
+    return v is not None and any(_agree(v, e, tol) for e in vals)
 
 
 def _agree(a, b, tol=1e-9):
@@ -329,6 +389,94 @@ def sensitive_rows(per_formula=6):
     return _cache['sens']
 
 
+_TAB_TYPE = re.compile(r'^(\s*)-\s*type:\s*tabulated\s+(\w+)\s*$')
+_ANY_TYPE = re.compile(r'^\s*-\s*type:')
+_DATA_KEY = re.compile(r'^\s*data:\s*\|')
+
+
+def _table_index():
+    """{row: [(kind, wavelength column)]} by a fast text scan of every data file (0.5 s for the catalogue); the rows
+    selected from it are afterwards re-read with a real YAML parser"""
+    if 'tidx' in _cache:
+        return _cache['tidx']
+    df = _catalog()
+    out = {}
+    for i, fn in enumerate(df['filename']):
+        try:
+            lines = open(_repo('database', 'data-nk', fn), encoding='utf-8').read().split('\n')
+        except OSError:
+            continue
+        tabs = []
+        k = 0
+        while k < len(lines):
+            m = _TAB_TYPE.match(lines[k])
+            if not m:
+                k += 1
+                continue
+            kind = m.group(2)
+            k += 1
+            while k < len(lines) and not _DATA_KEY.match(lines[k]) and not _ANY_TYPE.match(lines[k]):
+                k += 1
+            if k >= len(lines) or not _DATA_KEY.match(lines[k]):
+                continue
+            ind = len(lines[k]) - len(lines[k].lstrip())
+            k += 1
+            xs = []
+            while k < len(lines):
+                ln = lines[k]
+                if ln.strip() and len(ln) - len(ln.lstrip()) <= ind:
+                    break
+                if ln.strip():
+                    try:
+                        xs.append(float(ln.split()[0]))
+                    except ValueError:
+                        pass
+                k += 1
+            tabs.append((kind, xs))
+        if tabs:
+            out[i] = tabs
+    _cache['tidx'] = out
+    return out
+
+
+def table_structure():
+    """{class: [rows]} of the structurally unusual / distinct table layouts of the catalogue, found at run time"""
+    if 'tstruct' in _cache:
+        return _cache['tstruct']
+    fi = _formula_index()
+    cls = {'repeated-wavelength': [], 'non-monotone-wavelengths': [], 'single-row-table': [], 'n-only': [],
+           'nk-only': [], 'n+k': [], 'k-only': [], 'formula+k': [], 'formula+nk': []}
+    for i, tabs in sorted(_table_index().items()):
+        kinds = sorted(k for k, _ in tabs)
+        for kind, xs in tabs:
+            if any(a == b for a, b in zip(xs, xs[1:])):
+                cls['repeated-wavelength'].append(i)
+            if any(a > b for a, b in zip(xs, xs[1:])):
+                cls['non-monotone-wavelengths'].append(i)
+            if len(xs) == 1:
+                cls['single-row-table'].append(i)
+        lay = ('formula+' if i in fi else '') + '+'.join(kinds)
+        lay = {'n': 'n-only', 'nk': 'nk-only', 'k+n': 'n+k', 'k': 'k-only'}.get(lay, lay)
+        if lay in cls:
+            cls[lay].append(i)
+    _cache['tstruct'] = {k: sorted(set(v)) for k, v in cls.items()}
+    return _cache['tstruct']
+
+
+def unusual_table_rows(per_layout=3):
+    """always part of the quick tier: every row with a repeated / out-of-order wavelength or a one-row table, and per
+    table layout the first rows plus the one with the longest table"""
+    st = table_structure()
+    ti = _table_index()
+    pick = set(st['repeated-wavelength']) | set(st['non-monotone-wavelengths']) | set(st['single-row-table'])
+    for lay in ('n-only', 'nk-only', 'n+k', 'k-only', 'formula+k', 'formula+nk'):
+        rows = st[lay]
+        pick.update(rows[:per_layout])
+        if rows:
+            pick.add(max(rows, key=lambda i: (max(len(xs) for _, xs in ti[i]) if max(len(xs) for _, xs in ti[i]) < 4000 else 0, -i)))
+    return sorted(pick)
+
+
 def _index_rows(ctx):
     df = _catalog()
     idx = list(range(len(df)))
@@ -341,8 +489,42 @@ def _index_rows(ctx):
             if any(t in fn for t in rare):
                 pick.add(i)
         pick.update(sensitive_rows())
+        pick.update(unusual_table_rows())
         idx = sorted(pick)
     return idx
+
+
+COQ_EXTRA_CAP = 150
+
+
+def row_samples(ctx, r, secs, unusual):
+    """(all wavelengths, how many of them also go to the Coq model): the 9 range points, then points strictly inside
+    table intervals (those next to repeated / out-of-order wavelengths first)"""
+    base = row_wavelengths(r)
+    budget = 10 ** 9 if not ctx.quick() else (24 if unusual else 6)
+    prio, rest = table_samples(secs, float(r['min_wavelength']), float(r['max_wavelength']), budget)
+    if ctx.quick() and len(prio) > 240:
+        step = len(prio) / 240.0
+        prio = [prio[int(k * step)] for k in range(240)]
+    ws = base + prio + rest
+    mono = all(nondecreasing([q[0] for q in s[1]]) for s in secs if s[0] in ('n', 'k', 'nk'))
+    if mono:
+        return ws, list(range(len(base) + min(len(prio) + len(rest), COQ_EXTRA_CAP)))
+    # a table with rows out of order: the Coq model (file order, left-to-right search) is compared only where the
+    # neighbouring rows are the same whether the table is read as listed or in increasing order
+    cols = [[q[0] for q in s[1]] for s in secs if s[0] in ('n', 'k', 'nk')]
+    return ws, [j for j, w in enumerate(base) if all(_order_free(xs, w) for xs in cols)]
+
+
+def _order_free(xs, w):
+    if disordered_at(xs, w) or w in xs:
+        return False
+    below = [x for x in xs if x < w]
+    above = [x for x in xs if x > w]
+    if not below or not above:
+        return True
+    k = next(i for i, x in enumerate(xs) if x > w)
+    return k > 0 and xs[k - 1] == max(below) and xs[k] == min(above)
 
 
 def check_index(ctx, idx=None, tol=1e-9, shard=24):
@@ -352,6 +534,12 @@ def check_index(ctx, idx=None, tol=1e-9, shard=24):
     res = {'name': 'catalogue-index', 'n': 0, 'nontrivial': 0, 'samples': [], 'disagreements': [],
            'histogram': {}, 'exhaustive': len(idx) == len(df)}
     hist = res['histogram']
+    st = table_structure()
+    unusual = set(st['repeated-wavelength']) | set(st['non-monotone-wavelengths']) | set(st['single-row-table'])
+    inc = set(idx)
+    for k, rows in st.items():
+        hist['tables:' + k] = f'{len([i for i in rows if i in inc])} of {len(rows)} catalogue rows'
+    hist['points-inside-table-intervals'] = 0
     items = []
     bodies = []
     cur = []
@@ -360,7 +548,8 @@ def check_index(ctx, idx=None, tol=1e-9, shard=24):
         r = df.iloc[i]
         path = _repo('database', 'data-nk', r['filename'])
         secs = read_sections(path)
-        ws = row_wavelengths(r)
+        ws, coq_js = row_samples(ctx, r, secs, i in unusual)
+        hist['points-inside-table-intervals'] += len(ws) - 9
         im = impl_index(path, ws)
         layout = '+'.join(s[0] + (str(s[1]) if s[0] == 'formula' else '') for s in secs)
         hist[layout] = hist.get(layout, 0) + 1
@@ -368,12 +557,14 @@ def check_index(ctx, idx=None, tol=1e-9, shard=24):
         lines = []
         sec_txt = '[' + '; '.join(coq_section(s) for s in secs) + ']'
         has_k = sum(1 for s in secs if s[0] in ('k', 'nk')) >= 1
-        for j, w in enumerate(ws):
+        spec_ok = (len([s for s in secs if s[0] in ("formula", "n", "nk")]) == 1 and
+                   all(increasing([(q[0],) for q in s[1]]) for s in secs if s[0] in ('n', 'nk')))
+        for j in coq_js:
+            w = ws[j]
             pn = None if 'load_err' in im else im['n'][j]
             lines.append(_opt_cmp(f'file_n secs {H(w)}', pn, tol))
-            lines.append(_opt_cmp(f'file_index secs {H(w)}', pn, tol) if
-                         (len([s for s in secs if s[0] in ("formula", "n", "nk")]) == 1 and
-                          all(increasing([(q[0],) for q in s[1]]) for s in secs if s[0] in ('n', 'nk'))) else 'true')
+            if spec_ok:
+                lines.append(_opt_cmp(f'file_index secs {H(w)}', pn, tol))
             if pn is not None:
                 if im.get('n_arr') is None:
                     lines.append('false')
@@ -384,38 +575,46 @@ def check_index(ctx, idx=None, tol=1e-9, shard=24):
                 lines.append(_opt_cmp(f'file_kk secs {H(w)}', pk, tol))
                 if pk is not None:
                     lines.append('false' if im.get('k_arr') is None else f'close {H(1e-14)} {H(pk)} {H(im["k_arr"][j])}')
-        cur.append(f'(let secs := {sec_txt} in\n  ' + ' && '.join(lines) + ')')
-        sizes += sum(len(s[1]) for s in secs if s[0] in ('n', 'k', 'nk'))
+        cur.append(f'(let secs := {sec_txt} in\n  ' + (' && '.join(lines) or 'true') + ')')
+        sizes += sum(len(s[1]) for s in secs if s[0] in ('n', 'k', 'nk')) + 20 * len(coq_js)
         if len(cur) >= shard or sizes > 9000:
             bodies.append(cur)
             cur, sizes = [], 0
     if cur:
         bodies.append(cur)
     texts = ['Eval vm_compute in (report [\n' + ';\n'.join(b) + '\n]).\n' for b in bodies]
+    # the property oracle does not depend on Coq: its verdicts are reported even when the model cannot be evaluated
+    viols = [oracle_row(r, secs, ws, im) for (i, r, secs, ws, im) in items]
+    bad_rows = set()
+    coq_err = None
     try:
         out = vlib.run_cases('C18idx', IMPORTS, texts)
+        pos = 0
+        for b, o in zip(bodies, out):
+            if o[0] == 'error':
+                coq_err = o[1]
+                break
+            if o[1] > len(o[2]):
+                bad_rows.update(range(pos, pos + len(b)))     # more failures than listed: the whole shard is suspect
+            for k in o[2]:
+                bad_rows.add(pos + k)
+            pos += len(b)
     except RuntimeError as e:
-        res['error'] = str(e)
-        return res
-    bad_rows = set()
-    pos = 0
-    for b, o in zip(bodies, out):
-        if o[0] == 'error':
-            res['error'] = o[1]
+        coq_err = str(e)
+    if coq_err:
+        bad_rows = set()
+        if not any(viols):
+            res['error'] = coq_err
             return res
-        if o[1] > len(o[2]):
-            bad_rows.update(range(pos, pos + len(b)))     # more failures than listed: recheck the whole shard below
-        for k in o[2]:
-            bad_rows.add(pos + k)
-        pos += len(b)
+        res['note'] = 'Coq model not evaluated: ' + coq_err[-300:]
     for n_, (i, r, secs, ws, im) in enumerate(items):
         res['n'] += len(ws)
-        viol = oracle_row(r, secs, ws, im)
+        viol = viols[n_]
         if 'load_err' not in im and any(v is not None and math.isfinite(v) for v in im['n']):
             res['nontrivial'] += 1
         if n_ in bad_rows or viol:
             d = {'kind': 'index', 'file': r['filename'], 'row': int(i), 'model_agrees': n_ not in bad_rows,
-                 'oracle': viol[:3], 'violates_property': bool(viol)}
+                 'oracle': viol[:3], 'violations': len(viol), 'violates_property': bool(viol)}
             if viol:
                 d['cause'] = viol[0]['cause']
             res['disagreements'].append(d)
@@ -429,28 +628,43 @@ def oracle_row(r, secs, ws, im):
     """the property stated on the implementation's answers for one catalogue row; list of violations"""
     out = []
     defines = any(s[0] in ('formula', 'n', 'nk') for s in secs)
-    if not defines:
-        return out
     if 'load_err' in im:
+        if not defines:
+            return out
         multi = sum(1 for s in secs if s[0] in ('formula', 'n', 'nk')) > 1
         return [{'cause': 'multiple-dispersion-sections' if multi else 'load-error', 'error': im['load_err']}]
+    ntab = [s for s in secs if s[0] in ('n', 'nk')]
+    ktab = [s for s in secs if s[0] in ('k', 'nk')]
+    nx = [q[0] for q in ntab[0][1]] if len(ntab) == 1 and not any(s[0] == 'formula' for s in secs) else None
+    kx = [q[0] for q in ktab[0][1]] if len(ktab) == 1 else None
+    dis = lambda xs, w: bool(xs) and not nondecreasing(xs) and disordered_at(xs, w)
     for j, w in enumerate(ws):
-        o = oracle_n(secs, w)
-        v = im['n'][j]
-        if o[0] == 'ok':
-            if v is None or not _agree(v, o[1]):
-                out.append({'cause': 'index-value', 'wavelength': w, 'implementation': v, 'data_file_formula': o[1]})
-        elif o[0] == 'bad':
-            pass          # malformed for the oracle too: nothing is promised
-        if v is not None and im.get('n_arr') is not None and not _agree(v, im['n_arr'][j], 1e-14):
-            out.append({'cause': 'scalar-array', 'wavelength': w, 'scalar': v, 'array': im['n_arr'][j]})
-        if v is not None and im.get('n_arr') is None:
-            out.append({'cause': 'scalar-array', 'wavelength': w, 'scalar': v, 'array': None})
+        if defines:
+            o = oracle_n(secs, w)
+            v = im['n'][j]
+            if o[0] == 'ok' and not _agree_any(v, o[1]):
+                out.append({'cause': 'index-value', 'wavelength': w, 'implementation': v,
+                            'data_file_formula_or_consecutive_row_interpolation': o[1][:3],
+                            'rows_out_of_order_here': dis(nx, w)})
+            if v is not None and im.get('n_arr') is not None and not _agree(v, im['n_arr'][j], 1e-14):
+                out.append({'cause': 'scalar-array', 'wavelength': w, 'scalar': v, 'array': im['n_arr'][j],
+                            'rows_out_of_order_here': dis(nx, w)})
+            if v is not None and im.get('n_arr') is None:
+                out.append({'cause': 'scalar-array', 'wavelength': w, 'scalar': v, 'array': None,
+                            'rows_out_of_order_here': False})
         ok_ = oracle_k(secs, w)
         if ok_[0] == 'ok':
             kv = im['k'][j]
-            if kv is None or not _agree(kv, ok_[1]):
-                out.append({'cause': 'k-value', 'wavelength': w, 'implementation': kv, 'k_table': ok_[1]})
+            if not _agree_any(kv, ok_[1]):
+                out.append({'cause': 'k-value', 'wavelength': w, 'implementation': kv,
+                            'consecutive_row_interpolation_of_k_table': ok_[1][:3],
+                            'rows_out_of_order_here': dis(kx, w)})
+            if kv is not None and im.get('k_arr') is not None and not _agree(kv, im['k_arr'][j], 1e-14):
+                out.append({'cause': 'scalar-array-k', 'wavelength': w, 'scalar': kv, 'array': im['k_arr'][j],
+                            'rows_out_of_order_here': dis(kx, w)})
+    if out and all(v.get('rows_out_of_order_here') for v in out):
+        for v in out:
+            v['cause'] = 'table-rows-out-of-order'
     return out
 
 
@@ -941,12 +1155,19 @@ def check_levenshtein(ctx):
 # Abbe number and model glass
 # --------------------------------------------------------------------------
 def _visible_files(ctx, limit):
+    """catalogue rows whose range covers the F, d and C lines: a seeded sample, plus (always) rows whose index comes
+    from an n,k table - absorbing media, where anomalous dispersion (n_F < n_C, negative Abbe number) occurs"""
     df = _catalog()
     ok = df[(df['min_wavelength'] <= 0.48) & (df['max_wavelength'] >= 0.66)]
     idx = list(ok.index)
+    vis = set(idx)
     rng = random.Random(ctx.seed * 5 + 9)
     if len(idx) > limit:
         idx = rng.sample(idx, limit)
+        nk = [i for i in table_structure()['nk-only'] if i in vis]
+        keep = min(len(nk), max(30, limit // 4))
+        step = len(nk) / float(keep) if keep else 1
+        idx = sorted(set(idx) | {nk[int(k * step)] for k in range(keep)})
     return [df.loc[i] for i in sorted(idx)]
 
 
@@ -977,15 +1198,22 @@ def check_abbe(ctx):
             meta.append((tag, nd, nF, nC, v, exp))
             res['nontrivial'] += int(math.isfinite(v))
     res['n'] = len(lines)
+    res['histogram'] = {'anomalous_dispersion(n_F<n_C)': sum(1 for t in meta if t[2] < t[3]),
+                        'normal_dispersion': sum(1 for t in meta if t[2] > t[3])}
+    py_viol = any(not _agree(t[4], t[5], 1e-12) for t in meta)
+    o = (0, 0, [])
     try:
-        out = vlib.run_cases('C18abbe', IMPORTS, ['Eval vm_compute in (report [\n' + ';\n'.join(lines) + '\n]).\n'])
+        o = vlib.run_cases('C18abbe', IMPORTS, ['Eval vm_compute in (report [\n' + ';\n'.join(lines) + '\n]).\n'])[0]
+        err = o[1] if o[0] == 'error' else None
     except RuntimeError as e:
-        res['error'] = str(e)
-        return res
-    o = out[0]
-    if o[0] == 'error':
-        res['error'] = o[1]
-        return res
+        err = str(e)
+    if err:
+        # the definition of the Abbe number does not need the Coq model: report its verdicts anyway
+        if not py_viol:
+            res['error'] = err
+            return res
+        res['note'] = 'Coq model not evaluated: ' + err[-300:]
+        o = (0, 0, [])
     bad = set(o[2])
     for k, (tag, nd, nF, nC, v, exp) in enumerate(meta):
         viol = not _agree(v, exp, 1e-12)
@@ -1015,7 +1243,7 @@ def schott_glasses():
         secs = read_sections(_repo('database', 'data-nk', r['filename']))
         o = [oracle_n(secs, w) for w in LINES]
         if all(x[0] == 'ok' for x in o):
-            nd, nF, nC = (x[1] for x in o)
+            nd, nF, nC = (x[1][0] for x in o)
             if nF != nC:
                 out.append((r['name'], nd, (nd - 1) / (nF - nC)))
     _cache['schott'] = out
@@ -1176,17 +1404,18 @@ def search(ctx, broken, disagreements):
     rng = random.Random(ctx.seed + 1818)
     idx = rng.sample(range(len(df)), ctx.n(400, len(df)))
     # rows on which every coefficient position matters come first (a changed coefficient index shows there)
-    idx = sensitive_rows() + [i for i in idx if i not in set(sensitive_rows())]
+    first = sensitive_rows() + [i for i in unusual_table_rows() if i not in set(sensitive_rows())]
+    idx = first + [i for i in idx if i not in set(first)]
     for i in idx:
         r = df.iloc[i]
         path = _repo('database', 'data-nk', r['filename'])
         secs = read_sections(path)
-        ws = row_wavelengths(r)
+        ws, _ = row_samples(ctx, r, secs, True)
         viol = oracle_row(r, secs, ws, impl_index(path, ws))
         if viol:
             found.append({'kind': 'index', 'file': r['filename'], 'row': int(i), 'cause': viol[0]['cause'],
                           'oracle': viol[:3], 'violates_property': True})
-            if len([f for f in found if f['kind'] == 'index']) >= 6:
+            if len([f for f in found if f['kind'] == 'index' and f['cause'] != 'table-rows-out-of-order']) >= 6:
                 break
     from optiland.materials.material import Material
     for a, b in _lev_pairs(ctx):
@@ -1256,7 +1485,7 @@ def check_abbe_python(ctx):
     out = []
     with warnings.catch_warnings():
         warnings.simplefilter('ignore')
-        for r in _visible_files(ctx, 40):
+        for r in _visible_files(ctx, 60):
             try:
                 m = MaterialFile(_repo('database', 'data-nk', r['filename']))
                 nd, nF, nC = (_f(m.n(w)) for w in LINES)
@@ -1282,7 +1511,7 @@ def matches_finding(w, f):
             return w.get('name') in m.get('queries', [])
         return True           # cause 'regex' is established by re-running the lookup with a literal filter
     if k == 'index':
-        return w.get('cause') == m.get('cause') and w.get('file') == m.get('file')
+        return w.get('cause') == m.get('cause') and ('file' not in m or w.get('file') == m.get('file'))
     if k == 'abbe-call':
         return m.get('class', '') in w.get('material', '') and 'not callable' in w.get('error', '')
     if k == 'model-glass':
@@ -1298,13 +1527,15 @@ def replay_finding(ctx, f):
         return bool(w) and w['cause'] == m['cause']
     if k == 'index':
         df = _catalog()
-        rows = [i for i, fn in enumerate(df['filename']) if fn == m['file']]
+        fname = m.get('file') or m.get('example', {}).get('file')
+        rows = [i for i, fn in enumerate(df['filename']) if fn == fname]
         if not rows:
             return False
         r = df.iloc[rows[0]]
         path = _repo('database', 'data-nk', r['filename'])
-        ws = row_wavelengths(r)
-        viol = oracle_row(r, read_sections(path), ws, impl_index(path, ws))
+        secs = read_sections(path)
+        ws, _ = row_samples(ctx, r, secs, True)
+        viol = oracle_row(r, secs, ws, impl_index(path, ws))
         return bool(viol) and viol[0]['cause'] == m['cause']
     if k == 'abbe-call':
         return any(m['class'] in d['material'] for d in check_abbe_call(ctx)['disagreements'])
